@@ -486,6 +486,9 @@ def selftest():
     V = []
     b = lambda name, file, old, new, rule, expect="", **kw: V.append(dict(name=name, kind="break", file=file, old=old, new=new, rule=rule, expect=expect, **kw))
     n = lambda name, file, old, new, **kw: V.append(dict(name=name, kind="neutral", file=file, old=old, new=new, **kw))
+    FCF_ = "phonopy/harmonic/force_constants.py"
+    b("drift report transposes a conditional copy of the caller's compact force constants", FCF_, "            phonoc.transpose_compact_fc(\n                force_constants, permutations, s2pp_map, p2s_map, nsym_list\n            )\n            maxval1, jk1 = _get_drift_per_index(force_constants)\n            phonoc.transpose_compact_fc(\n                force_constants, permutations, s2pp_map, p2s_map, nsym_list\n            )\n            maxval2, jk2 = _get_drift_per_index(force_constants)", "            fc = np.ascontiguousarray(force_constants, dtype=\"double\")\n            maxval2, jk2 = _get_drift_per_index(fc)\n            phonoc.transpose_compact_fc(fc, permutations, s2pp_map, p2s_map, nsym_list)\n            maxval1, jk1 = _get_drift_per_index(fc)", "R15f", "show_drift_force_constants")
+    n("drift report transposes a private copy", FCF_, "            phonoc.transpose_compact_fc(\n                force_constants, permutations, s2pp_map, p2s_map, nsym_list\n            )\n            maxval1, jk1 = _get_drift_per_index(force_constants)\n            phonoc.transpose_compact_fc(\n                force_constants, permutations, s2pp_map, p2s_map, nsym_list\n            )\n            maxval2, jk2 = _get_drift_per_index(force_constants)", "            fc = np.array(force_constants, dtype=\"double\", order=\"C\")\n            maxval2, jk2 = _get_drift_per_index(fc)\n            phonoc.transpose_compact_fc(fc, permutations, s2pp_map, p2s_map, nsym_list)\n            maxval1, jk1 = _get_drift_per_index(fc)")
     b("group-velocity step written back by the rebuild", "phonopy/api_phonopy.py", "        self._group_velocity = GroupVelocity(\n            self._dynamical_matrix,\n            q_length=self._gv_delta_q,\n            symmetry=self._primitive_symmetry,\n            frequency_factor_to_THz=self._factor,\n        )\n", "        self._group_velocity = GroupVelocity(\n            self._dynamical_matrix,\n            q_length=self._gv_delta_q,\n            symmetry=self._primitive_symmetry,\n            frequency_factor_to_THz=self._factor,\n        )\n        if self._gv_delta_q is None:\n            self._gv_delta_q = self._group_velocity.q_length\n", "R15h", "_gv_delta_q")
     b("nac_params setter forgets the rebuild", API, "        self._nac_params = nac_params\n        if self._force_constants is not None:\n            self._set_dynamical_matrix()", "        self._nac_params = nac_params", "R15a", "nac_params")
     b("masses setter forgets the rebuild", API, "        self._unitcell.set_masses(u_masses)\n        if self._force_constants is not None:\n            self._set_dynamical_matrix()", "        self._unitcell.set_masses(u_masses)", "R15a", "masses")
